@@ -27,7 +27,7 @@ abbrev Bytes := List Nat
 
 inductive ErrKind where
   | fileType | version | versionMismatch | checksumMismatch | headerLen | fnIdent | fnChecksum
-  | edgeCount | short | blockNo | recordLen
+  | edgeCount | short | blockNo | recordLen | blockCount
 deriving DecidableEq, Repr
 
 inductive Site where
@@ -169,6 +169,8 @@ inductive NRec where
   | arcs (src : Nat) (as : List (Nat × Nat))
   | lines (blk : Nat) (items : List LineItem)
   | short                   -- the buffer ends inside this record (`?` on a failed read)
+  | fail (k : ErrKind)      -- the byte reader rejects the record (`blockCount`: more blocks
+                            -- announced than bytes left in the file)
   | crash (s : Site)        -- the byte reader panics here (all-NUL string, `count - 1` underflow)
 deriving DecidableEq, Repr
 
@@ -193,6 +195,7 @@ def replaceLast {α : Type} : List α → α → List α
 def buildStep (g : Notes) (r : NRec) : Outcome Notes :=
   match r with
   | .short => err .short
+  | .fail k => err k
   | .crash s => crash s
   | .func ident ls cs name file st en =>
     ok { g with funcs := g.funcs ++ [{ ident := ident, startLine := st, endLine := en,
@@ -597,15 +600,15 @@ def zeroLines : List Nat → List (Nat × Nat) → List (Nat × Nat)
   | [], m => m
   | l :: ls, m => zeroLines ls (match get? m l with | some _ => m | none => set m l 0)
 
-/-- `add_line_count` (reader.rs 1129-1163): the executed flag and `fun.lines` -/
+/-- `self.edges.first().is_some_and(|edge| edge.counter > 0)`: the function has an arc and its
+first arc (entry block → body) was taken; a function without arcs counts as not executed -/
+def entered (f : Func) (c : Cnt) : Bool := !f.arcs.isEmpty && decide (c.arc 0 > 0)
+
+/-- `add_line_count`: the executed flag and `fun.lines` -/
 def addLineCount (f : Func) (c : Cnt) : Outcome (Bool × List (Nat × Nat)) :=
-  match f.arcs with
-  | [] => crash .noArcs
-  | _ :: _ =>
-    let executed := decide (c.arc 0 > 0)
-    if executed then
-      (lineCounts f c (linesToBlock f) (fun _ => 0)).bind fun ls => ok (true, ls)
-    else ok (false, zeroLines (f.blocks.flatMap (·.lines)) [])
+  if entered f c then
+    (lineCounts f c (linesToBlock f) (fun _ => 0)).bind fun ls => ok (true, ls)
+  else ok (false, zeroLines (f.blocks.flatMap (·.lines)) [])
 
 /-! ## `finalize` -/
 
